@@ -60,7 +60,7 @@ def build(chk):
     chk.bounds = {'function level': 'f with <= 2 (quick) / 3 (thorough) monomials of degree <= 2, ids over {0,1,2}; replacement maps with 1..2 entries (keys 0 / 0,1), '
                   'each replacement of degree <= 2 with <= 2 terms over ids {0,2} (so replaced variables may be mentioned)',
                   'instance level': '3 variables, objective + active + removed constraint, one or two successive substitutions (chain)',
-                  'eval_dependencies': 'every directed graph on <= 3 (quick) / 4 (thorough) dependent variables plus one base variable present/absent, every iteration order of the dependency map',
+                  'eval_dependencies': 'every directed graph on <= 3 dependent variables (each optionally using the base variable), plus 4 dependents: quick = the 64 DAGs with edges from lower to higher id, thorough = every directed graph (base variable used by the sinks); base variable present/absent; every iteration order of the dependency map',
                   'coefficients': '0 or magnitude in [2^-4, 2^4]; instance-level harness: positive coefficients in [2^-4, 2^4] and three concrete dyadic states (cancellation inside substitution is covered at function level)'}
     chk.assumptions += ['R-model; coefficient-wise identity up to 64*2^16*f64::EPSILON (epsilon-dropping inside the algebra)',
                         'HashMap iteration order modelled as an arbitrary permutation (explored exhaustively where stated)',
@@ -148,13 +148,21 @@ def build(chk):
             chk.harness(f'function:{"/".join(map(str, fs))}<-[{"/".join(map(str, r0))}],[{"/".join(map(str, r1))}]', mk_fn(fs, [r0, r1]))
 
     # ---------------------------------------------------------------- eval_dependencies: all graphs, all orders
-    def mk_deps(nd):
+    def mk_deps(nd, dag_only=False, first_edges=None):
         dep_ids = [10 + i for i in range(nd)]
 
         def h(P):
             base_present = P.choose(2)
-            edges = {i: [j for j in dep_ids if j != i and P.choose(2)] for i in dep_ids}
-            usebase = {i: P.choose(2) for i in dep_ids}
+            edges = {}
+            for i in dep_ids:
+                if first_edges is not None and i == dep_ids[0]:
+                    edges[i] = [j for j, b in zip(dep_ids[1:], first_edges) if b]
+                    continue
+                edges[i] = [j for j in dep_ids if j != i and (not dag_only or j > i) and P.choose(2)]
+            if nd >= 4:
+                usebase = {i: len(edges[i]) == 0 for i in dep_ids}
+            else:
+                usebase = {i: P.choose(2) for i in dep_ids}
             fns = {}
             for i in dep_ids:
                 terms = [(j, dom(P, f'c{i}_{j}', 'positive')) for j in edges[i]] + ([(0, dom(P, f'c{i}_b', 'positive'))] if usebase[i] else [])
@@ -198,12 +206,17 @@ def build(chk):
                 wv = None if not solvable else {i: float(valconv.fv_to_fraction(FV('fin', wants[i]), model)) for i in dep_ids}
 
                 def judge(res):
-                    if wv is None:
-                        return 'err' not in res
-                    if 'ok' not in res:
-                        return True
-                    got = dict(chk.unhex(res['ok']['solution'], 'ommx.v1.Solution')['state']['entries'])
-                    return any(not close(got.get(i, 1e300), wv[i], rel=1e-6) for i in dep_ids)
+                    for v in res.get('variants', [res]):
+                        if wv is None:
+                            if 'err' not in v:
+                                return True
+                        elif 'ok' not in v:
+                            return True
+                        else:
+                            got = {k: (x if not isinstance(x, str) else float(x.replace('inf', 'inf'))) for k, x in v['ok']}
+                            if any(not close(got.get(i, 1e300), wv[i], rel=1e-6) for i in dep_ids):
+                                return True
+                    return False
                 return case, judge, f'dependencies {dict((i, (edges[i], usebase[i])) for i in dep_ids)} base_present={base_present}: expected {wv}'
             try:
                 res = P.it.run_body(evdep, [ref_to(deps), ref_to(st)])
@@ -228,9 +241,14 @@ def build(chk):
                 P.cover('err')
                 P.require('ok-when-acyclic-and-grounded', not solvable, witness)
         return h
-    nd = 3 if chk.tier == 'quick' else 4
-    for n in range(1, nd + 1):
+    for n in range(1, 4):
         chk.harness(f'eval_dependencies:{n}-dependents', mk_deps(n), regions=['ok', 'err'], hash_order='all', step_budget=200000)
+    if chk.tier == 'quick':
+        # 4 dependents: every DAG whose edges go from lower to higher id (64 graphs), every iteration order
+        chk.harness('eval_dependencies:4-dependents-dags', mk_deps(4, dag_only=True), regions=['ok', 'err'], hash_order='all', step_budget=200000)
+    else:
+        for fe in itertools.product([0, 1], repeat=3):
+            chk.harness(f'eval_dependencies:4-dependents/first-edges={fe}', mk_deps(4, first_edges=fe), regions=['ok'], hash_order='all', step_budget=200000)
 
     # ---------------------------------------------------------------- instance level
     def lin(P, pre, ids):
